@@ -7,6 +7,7 @@ import (
 	"strings"
 
 	"github.com/ipld/go-ipld-prime/datamodel"
+	"github.com/ipld/go-ipld-prime/schema"
 	cidlink "github.com/ipld/go-ipld-prime/linking/cid"
 )
 
@@ -301,6 +302,16 @@ func (o *Observer) keyOf(kn datamodel.Node, path string) string {
 			o.inc("accessor-error(key.AsString)", "at %q: %v", path, err)
 		}
 		return s
+	}
+	if tn, ok := kn.(schema.TypedNode); ok && o.Typed {
+		// a typed key that is not a string at type level (a struct, an enum): the entry is keyed, in the
+		// reference, by the string the key is represented by
+		var s string
+		var err error
+		if guard(o, "key.Representation.AsString", path, func() { s, err = tn.Representation().AsString() }) && err == nil {
+			return s
+		}
+		o.inc("complex-key-without-string-representation", "at %q: %v", path, err)
 	}
 	sub := &Observer{}
 	kv := sub.Read(kn, path+"/<key>")
